@@ -1,6 +1,6 @@
 """C14 - each snapshot() call site has its own state; repeated evaluation aggregates."""
 from .core import core_check
-from .. import partial_replay
+from .. import partial_replay, reeval_replay
 
 
 def _partial(chk):
@@ -9,6 +9,8 @@ def _partial(chk):
         partial_replay.run(chk, k=2, max_cmp=3)
     else:
         partial_replay.run(chk, k=3, max_cmp=3, stride=8)
+    # the same call evaluated several times with dynamic (Is) parts and parts that are mutated in place
+    reeval_replay.run(chk, stride=16 if chk.quick else 2)
 
 
 def run():
